@@ -17,8 +17,8 @@ var cfg *vlib.Config
 
 type fakeSub struct{ id string }
 
-func (f *fakeSub) ID() string                       { return f.id }
-func (f *fakeSub) Type() message.SubscriberType     { return message.SubscriberDirect }
+func (f *fakeSub) ID() string                    { return f.id }
+func (f *fakeSub) Type() message.SubscriberType  { return message.SubscriberDirect }
 func (f *fakeSub) Send(m *message.Message) error { return nil }
 
 const (
